@@ -49,12 +49,7 @@ def St.init (cfg : Cfg) (stream : Bytes) (regs : List Poly) : St :=
   { stream := stream, bufs := cfg.kinds.map fun _ => Buf.new, regs := regs, slow := false }
 
 /-- one sampler call on the polynomial `pol`: `(result, slow, stream, buffer)`; `qs` are the moduli
-    of the `AtLevel` view.
-
-    AS CODED, `TernarySampler.AtLevel` copies the field `sample`, a method value bound to the
-    ORIGINAL sampler (`ts.sample = ts.sampleProba`), so a ternary view samples with the original
-    sampler's ring: all the moduli of the chain, whatever the level of the view (only `ReadNew`
-    allocates with the view's level — and then panics when the view is below the top level). -/
+    of the `AtLevel` view. -/
 def callKind (cfg : Cfg) (k : Kind) (m : Mode) (qs : List Nat) (pol : Poly) (s : Bytes) (b : Buf) :
     Res (Poly × Bool × Bytes × Buf) :=
   match k with
@@ -62,10 +57,10 @@ def callKind (cfg : Cfg) (k : Kind) (m : Mode) (qs : List Nat) (pol : Poly) (s :
       let (r, s, b) ← uniformRead cfg.fuel m qs pol s b
       pure (r, false, s, b)
   | .ternP pBits mont => do
-      let (r, s) ← ternProba cfg.fuel m mont (invDensity pBits) cfg.N cfg.chain pol s
+      let (r, s) ← ternProba cfg.fuel m mont (invDensity pBits) cfg.N qs pol s
       pure (r, false, s, b)
   | .ternH hw mont => do
-      let (r, s) ← ternSparse cfg.fuel m mont hw cfg.N cfg.chain pol s
+      let (r, s) ← ternSparse cfg.fuel m mont hw cfg.N qs pol s
       pure (r, false, s, b)
   | .gauss sg bd mont =>
       gaussRead cfg.orc cfg.fuel m mont (SF.ofBits64 sg) (SF.ofBits64 bd) cfg.N qs pol s b
